@@ -193,7 +193,7 @@ def main(argv):
             n1, n2 = int(16000 * a.scale), int(4000 * a.scale)
         else:
             cfgs = (a.configs.split(",") if a.configs else ALL_CONFIGS)
-            n1, n2 = int(500000 * a.scale), int(100000 * a.scale)
+            n1, n2 = int(1000000 * a.scale), int(200000 * a.scale)
         exes = build_many(cfgs)
         m = run_sharded("c07", "gen", (n1 // NCPU + 1, n2 // NCPU + 1), [(c, exes[c]) for c in cfgs], a.seed, timeout=3600)
         rep.merge(m)
